@@ -49,6 +49,7 @@ static int g_nsinkfiles;
 static int g_sample_sinks = 1;
 static int g_sample_state = 1;
 static long g_case_timeout_ms = 20000;
+static int g_automark;
 
 /* ---------------------------------------------------------------- event buffer */
 static char *eb;
@@ -375,6 +376,13 @@ static __thread struct cur_call cc;
 __attribute__((visibility("default"))) int vdrive_on_exec(const char *fn, const char *path, char *const argv[], char *const envp[],
                                                           int *ret, int *err) {
     int saved = errno;
+    static void (*noattr)(int);
+    static int looked;
+    if (!looked) {
+        noattr = (void (*)(int)) dlsym(RTLD_DEFAULT, "vheap_noattr");
+        looked = 1;
+    }
+    if (noattr) noattr(1);
     cc.nreal++;
     eb_printf("{\"ev\":\"REAL\",\"id\":%ld,\"n\":%d,\"fn\":\"%s\",\"pid\":%d,\"tid\":%ld,", cc.id, cc.nreal, fn, getpid(), (long) syscall(SYS_gettid));
     eb_printf("\"same_path\":%d,\"same_argv\":%d,", path == cc.path, argv == cc.argv);
@@ -388,6 +396,7 @@ __attribute__((visibility("default"))) int vdrive_on_exec(const char *fn, const 
     eb_flush();
     *ret = cc.ret;
     *err = cc.err;
+    if (noattr) noattr(0);
     return cc.real;
 }
 
@@ -468,6 +477,10 @@ static void do_call(char **tok, int ntok) {
     cc.envp = envp;
     cc.active = 1;
     int is_v = !strcmp(cc.fn, "execv");
+    if (g_automark) {
+        void (*mk)(void) = (void (*)(void)) dlsym(RTLD_DEFAULT, "vheap_mark");
+        if (mk) mk();
+    }
 
     eb_printf("{\"ev\":\"BEGIN\",\"id\":%ld,\"fn\":\"%s\",\"pid\":%d,\"tid\":%ld,\"h_path\":\"%016llx\",\"h_argv\":\"%016llx\",\"h_envp\":\"%016llx\",",
               cc.id, cc.fn, getpid(), (long) syscall(SYS_gettid), (unsigned long long) hash_str(FNV0, path),
@@ -683,6 +696,7 @@ static void exec_line(char *line) {
         for (int i = 0; i < g_nsinkfiles; i++) free(g_sinkfile[i]);
         g_nsinkfiles = 0;
     } else if (!strcmp(c, "casetimeout")) g_case_timeout_ms = atol(tok[1]);
+    else if (!strcmp(c, "automark")) g_automark = atoi(tok[1]);
     else if (!strcmp(c, "nosinks")) g_sample_sinks = 0;
     else if (!strcmp(c, "nostate")) g_sample_state = 0;
     else if (!strcmp(c, "stdin")) {
